@@ -4,7 +4,7 @@
    over a chunk schedule). Spec: Spec/Framing.v `ref_frames` (cut by the length field only). *)
 From Coq Require Import NArith List.
 From Rodbus Require Import Base.Outcome Base.Frame Model.Buffer Model.Mbap Model.Reader Spec.Framing Model.FramingEval
-  Proofs.BufferProofs Proofs.MbapProofs Proofs.C05Proofs.
+  Proofs.BufferProofs Proofs.ReaderGeneric Proofs.MbapProofs Proofs.C05Proofs.
 Import ListNotations.
 
 (* For EVERY byte stream s and EVERY way of cutting it into network reads (each read hands over
@@ -78,6 +78,60 @@ Theorem C05_never_full : forall st b st' b', wf b -> st_ok st -> mbap_parse st b
   forall c, c <> [] -> exists k b'', read_some b' c = (b'', RsOk k (skipn k c)) /\ 1 <= k <= length c.
 Proof. exact tcp_never_full. Qed.
 Print Assumptions C05_never_full.
+
+(* CANCEL-SAFETY. reader.next_frame(..) is one branch of a tokio::select! in SessionTask::run_one,
+   ClientLoop::poll and ClientLoop::execute_request; when another branch fires the future is dropped
+   while it waits for bytes and a new call starts later from the reader's state. For EVERY reachable
+   reader state and EVERY split n1 ++ n2 of a schedule: a call over n1 that is abandoned while waiting,
+   followed by a fresh call over n2 from the reader it left behind, returns the same frame / error,
+   the same reader and the same rest of the schedule as ONE uninterrupted call over n1 ++ n2. *)
+Theorem C05_cancel_safe : forall st b n1 n2 fi r1 n1',
+  wf b -> st_ok st ->
+  next_frame (nf_fuel n1) {| r_parser := PTcp st; r_buf := b |} n1 FinPending = (r1, n1', NfEnd EndPending) ->
+  next_frame (nf_fuel n2) r1 n2 fi = next_frame (nf_fuel (n1 ++ n2)) {| r_parser := PTcp st; r_buf := b |} (n1 ++ n2) fi /\
+  n1' = [] /\ exists st1 b1, r1 = {| r_parser := PTcp st1; r_buf := b1 |} /\ wf b1 /\ st_ok st1.
+Proof. exact tcp_cancel_safe. Qed.
+Print Assumptions C05_cancel_safe.
+
+(* ... and for whole sessions: abandoning the waiting call at EVERY chunk boundary (Model/Reader.run_cancel) changes nothing *)
+Theorem C05_cancel_safe_session : forall chunks fi,
+  run_cancel (reader_new KTcp) chunks fi = run_session KTcp false chunks fi.
+Proof. exact tcp_cancel_safe_session. Qed.
+Print Assumptions C05_cancel_safe_session.
+
+(* COMPOSITIONALITY (Spec): the frames of s1 ++ s2 in terms of the frames of s1 alone, as if the stream
+   paused after s1: if s1 ends inside (or exactly at the end of) a frame, what follows is read after the
+   incomplete last frame `mbap_tail s1`; if s1 already contains a malformed header, s2 is never looked at *)
+Theorem C05_spec_app : forall s1 s2 fi,
+  ref_frames (s1 ++ s2) fi =
+  match ref_frames s1 FinPending with
+  | (fs1, EndPending) => (fs1 ++ fst (ref_frames (mbap_tail s1 ++ s2) fi), snd (ref_frames (mbap_tail s1 ++ s2) fi))
+  | x => x
+  end.
+Proof. exact ref_frames_app. Qed.
+Print Assumptions C05_spec_app.
+
+(* COMPOSITIONALITY (reader): a connection that goes on. `tcp_represents r t`: the reader r is waiting and
+   the future looks to it exactly as it looks to the Spec after the unconsumed bytes t. A fresh reader
+   represents []; from a representing reader the run over ANY further schedule is the Spec on t ++ new
+   bytes; and when that run ends waiting, the reader it leaves behind represents the Spec's new leftover.
+   (Exchange after exchange on one connection: apply _step per exchange, _run for the last one.) *)
+Theorem C05_continue_fresh : tcp_represents (reader_new KTcp) [].
+Proof. exact tcp_represents_fresh. Qed.
+Print Assumptions C05_continue_fresh.
+Theorem C05_continue_run : forall r t n fi, tcp_represents r t ->
+  run_reader (run_fuel r n) false r n fi =
+    (map IFrame (fst (ref_frames (t ++ fst (sched_stream n fi)) (snd (sched_stream n fi)))),
+     snd (ref_frames (t ++ fst (sched_stream n fi)) (snd (sched_stream n fi)))).
+Proof. intros r t n fi H. rewrite ReaderGeneric.sched_stream_eq. exact (proj1 (tcp_run_represents r t n fi H)). Qed.
+Print Assumptions C05_continue_run.
+Theorem C05_continue_step : forall r t n r1 l1, tcp_represents r t ->
+  run_reader_st (run_fuel r n) r n FinPending = (r1, (l1, EndPending)) ->
+  tcp_represents r1 (mbap_tail (t ++ fst (sched_stream n FinPending))) /\
+  l1 = map IFrame (fst (ref_frames (t ++ fst (sched_stream n FinPending)) FinPending)) /\
+  snd (ref_frames (t ++ fst (sched_stream n FinPending)) FinPending) = EndPending.
+Proof. intros r t n r1 l1 H E. rewrite ReaderGeneric.sched_stream_eq. exact (tcp_represents_step r t n r1 l1 H E). Qed.
+Print Assumptions C05_continue_step.
 
 (* Client role: ONE reader serves all connections of a channel and ClientLoop::run resets it when
    a connection starts (the repaired F5). Whatever state an earlier connection left behind, every
